@@ -15,7 +15,9 @@
 (*   bi           the object's bank info (Samples!ReadBank record)          *)
 (*   path         slider: sequence of PathString tokens                     *)
 (*   repc/rep     slider: repeat field "num" | "bad"                        *)
-(*   lenc/len     slider: length field "num" | "bad"                        *)
+(*   lenc/len     slider: length field "num" | "bad" | "tiny" (a positive     *)
+(*                number below 1e-15: still a requested length - only an      *)
+(*                absent, zero or negative length means natural length)      *)
 (*   nsnd         slider: list of node sound values (-1 = unparsable entry) *)
 (*   nbank        slider: list of node bank infos                           *)
 (*   endc/end     spinner / hold end time "num" | "bad" | "empty"           *)
@@ -71,7 +73,7 @@ NodeCount(ln) == RepeatCount(ln) + 2
 SliderPreOk(ln) ==
     /\ Has(ln, 7)
     /\ ln.repc = "num" /\ ln.rep <= 9000
-    /\ Has(ln, 8) => ln.lenc = "num"
+    /\ Has(ln, 8) => ln.lenc \in {"num", "tiny"}
     /\ Has(ln, 11) => BankRes(ln, TRUE).ok
     /\ Has(ln, 10) => NodeBanks(IF Has(ln, 11) THEN BankRes(ln, TRUE).v ELSE Bank0, ln.nbank, 1, NodeCount(ln)).ok
 
@@ -129,7 +131,8 @@ Obj(ln, last, residue) ==
          [] k = "slider"  -> [base EXCEPT !.nc = ForcedCombo(last) \/ nc, !.co = co,
                                           !.cps = residue \o DecPath(ln.path).v,
                                           !.rep = RepeatCount(ln),
-                                          !.len = IF Has(ln, 8) /\ ln.len > 0 THEN ln.len ELSE -1,
+                                          !.len = IF Has(ln, 8) /\ ln.lenc = "tiny" THEN 0         \* 0 stands for the tiny requested length
+                                                  ELSE IF Has(ln, 8) /\ ln.len > 0 THEN ln.len ELSE -1,
                                           !.nodes = Nodes(ln)]
          [] k = "spinner" -> [base EXCEPT !.x = 256, !.y = 192, !.nc = nc, !.dur = Max2(0, ln.end - ln.t)]
          [] k = "hold"    -> [base EXCEPT !.y = 0,
@@ -179,7 +182,7 @@ AlphaNum(z) ==
       [Slider(<<"L", "A">>) EXCEPT !.rep = 0], [Slider(<<"L", "A">>) EXCEPT !.rep = -3], [Slider(<<"L", "A">>) EXCEPT !.rep = 3],
       [Slider(<<"L", "A">>) EXCEPT !.repc = "bad"], [Slider(<<"L", "A">>) EXCEPT !.nf = 6], [Slider(<<"L", "A">>) EXCEPT !.nf = 7],
       [Slider(<<"L", "A">>) EXCEPT !.len = 0], [Slider(<<"L", "A">>) EXCEPT !.len = -4], [Slider(<<"L", "A">>) EXCEPT !.len = 131072],
-      [Slider(<<"L", "A">>) EXCEPT !.lenc = "bad"],
+      [Slider(<<"L", "A">>) EXCEPT !.lenc = "bad"], [Slider(<<"L", "A">>) EXCEPT !.lenc = "tiny"],
       [Spinner EXCEPT !.end = 500], [Spinner EXCEPT !.end = 1000], [Spinner EXCEPT !.nf = 5], [Spinner EXCEPT !.nf = 6],
       [Spinner EXCEPT !.endc = "bad"], [Spinner EXCEPT !.xc = "frac", !.x = 77],
       [Hold EXCEPT !.end = 500], [Hold EXCEPT !.nf = 5], [Hold EXCEPT !.endc = "empty"], [Hold EXCEPT !.endc = "bad"],
@@ -287,6 +290,7 @@ EncLine(o) ==
                      !.nf = (CASE o.k = "circle" -> 6 [] o.k = "slider" -> 11 [] o.k = "spinner" -> 7 [] OTHER -> 6),
                      !.path = EncPathWith(o.cps, TRUE, TRUE), !.rep = e.spans,
                      !.len = IF o.len = -1 THEN 77 ELSE o.len,          \* no requested length: the computed one is written
+                     !.lenc = IF o.len = 0 THEN "tiny" ELSE "num",
                      !.nsnd = e.nsnd, !.nbank = e.nbank, !.endc = "num", !.end = e.end]
 \* what C02 lists for an object, apart from the control points (PathCodec)
 Core(o) == [k |-> o.k, x |-> o.x, y |-> o.y, t |-> o.t, nc |-> o.nc, co |-> o.co, rep |-> o.rep, dur |-> o.dur,
@@ -351,7 +355,7 @@ ObjShape ==
         /\ Len(o.smp) >= 1
         /\ (o.k = "slider" => /\ (WellFormed(o.cps) \/ ~ClearOnEntry)
                               /\ Len(o.nodes) = o.rep + 2 /\ o.rep >= 0 /\ o.rep <= 8999
-                              /\ (o.len = -1 \/ o.len > 0))
+                              /\ (o.len = -1 \/ o.len >= 0))       \* 0 = the class of tiny positive lengths
         /\ (o.k \in {"spinner", "hold"} => o.dur >= 0)
         /\ (o.k = "hold" => ~o.nc)
         /\ (o.co # 0 => o.nc)
